@@ -192,3 +192,78 @@ def rule_range_offset(ctx):
             else:
                 r.ok(anchor, "the count handed to the range-variable function is the number of arguments of the encoded framework", cs.loc())
     r.floor(n, 2, "range-variable computations in the encoders")
+
+
+def rule_encoding_loops_exhaust(ctx):
+    """C10: an encoder's loop over the framework that emits clauses visits every element"""
+    from ..flow import switch_subject
+    from ..core import switch_sites
+
+    prog = ctx.prog
+    r = ctx.rule(
+        "encoding-loops-run-to-the-end",
+        "in the encoders, a loop that draws its elements from an iterator (`Iterator::next`) and whose body emits clauses (calls "
+        "SatSolver::add_clause, directly or through local functions) is left only when the iterator is exhausted: no `return` / `break` "
+        "out of its body on a normally returning path, so that every attacker / argument gets its clauses and its variables",
+    )
+    emits = {}
+
+    def emitting(t):
+        if t.id not in emits:
+            emits[t.id] = any(callee_matches(callee_of(x), r"sat_solver::SatSolver::add_clause$") for y in prog.reachable_from([t], virtual_dispatch=False).values() for x in y.calls())
+        return emits[t.id]
+
+    n = 0
+    seen_loops = 0
+    for b in sorted(prog.lib_bodies(), key=lambda x: x.id):
+        fn = prog.enclosing_fn(b)
+        if not (fn.path.startswith("encodings::") or "<encodings::" in fn.path.split(" as ")[0]):
+            continue
+        for head, blks in b.loops():
+            seen_loops += 1
+            nexts = [s for s in b.calls() if s.bb in blks and callee_matches(callee_of(s), r"^core::iter::traits::iterator::Iterator::next$")]
+            if not nexts:
+                continue
+            emit = False
+            for s in b.calls():
+                if s.bb not in blks or callee_of(s) is None:
+                    continue
+                if callee_matches(callee_of(s), r"sat_solver::SatSolver::add_clause$"):
+                    emit = True
+                    break
+                t = prog.body_for_callee(callee_of(s), b)
+                if t is not None and emitting(t):
+                    emit = True
+                    break
+            if not emit:
+                continue
+            n += 1
+            next_dsts = {s.node["dst"]["l"] for s in nexts if s.node.get("dst")}
+            bad = []
+            for x in sorted(blks):
+                for s_ in b.succ[x]:
+                    if s_ in blks or b.blocks[s_]["cleanup"] or not b.can_return(s_):
+                        continue
+                    sw = Site_of_term(b, x)
+                    ok = False
+                    if sw is not None and sw.node.get("k") == "switch":
+                        sub = switch_subject(b, sw)
+                        if sub is not None and sub[0]["l"] in next_dsts:
+                            ok = True
+                    if not ok:
+                        bad.append((x, s_))
+            anchor = "%s|loop@%s" % (b.id, "next#%d" % (sorted(h for h, _ in b.loops()).index(head)))
+            if bad:
+                st = Site_of_term(b, bad[0][0])
+                r.violation(anchor, "leaves-early", "this clause-emitting loop can be left before its iterator is exhausted (a `return` / `break` in its body): the remaining elements get no clauses / no variables", st.loc() if st else b.loc())
+            else:
+                r.ok(anchor, "the loop is left only when its iterator is exhausted", b.loc())
+    # expected count on the pinned tree is zero (the encoders emit their clauses from `for_each` closures, where `return` only ends
+    # one element); the positive example that must match is the own mutant M-C10q-loop-returns-early of the thorough tier
+    r.ok("coverage|encoder-loops", "%d loop(s) of the encoders examined, %d of them draw from an iterator and emit clauses" % (seen_loops, n))
+
+
+def Site_of_term(body, bb):
+    from ..core import Site
+
+    return Site(body, bb, None)
